@@ -1,8 +1,9 @@
 /- Driver stream `c06`: serde trees -> postcard/bincode bytes; Policies serde model. -/
 import FuelVerif.Basic.Loop
 import FuelVerif.Model.PoliciesWire
+import FuelVerif.Model.PoliciesJson
 namespace FuelVerif.Drv.C06
-open FuelVerif FuelVerif.Serde FuelVerif.PoliciesSerde FuelVerif.Gen.Policies FuelVerif.Gen.SerdeShapes
+open FuelVerif FuelVerif.Serde FuelVerif.PoliciesSerde FuelVerif.Gen.Policies FuelVerif.Gen.SerdeShapes FuelVerif.PoliciesJson
 
 def tokenize (s : String) : List String :=
   let s := (s.replace "(" " ( ").replace ")" " ) "
@@ -85,7 +86,50 @@ def checkTree (T : TypeName) (t : Tree) (pc bc : Bytes) : String :=
      | none => ["bincode-dec-fails"])
   if errs.isEmpty then "ok" else " ".intercalate errs
 
+/-! JSON side of Policies. The request describes the object field by field (`key:kind:payload`), the
+harness renders it as JSON text for serde_json; the text layer itself is not modelled. -/
+
+def parseElem (s : String) : JElem :=
+  match s.toNat? with
+  | some n => .num n
+  | none => .other
+
+/-- `s:<hex of the utf-8 string>` | `n:<decimal>` | `a:<e1,e2,...>` (`-` = empty) | `o:<anything>` -/
+def parseField (tok : String) : Option (String × JVal) :=
+  match tok.splitOn ":" with
+  | [k, "s", h] => (ofHex h).map (fun bs => (k, JVal.str (bs.map (fun b => Char.ofNat b.toNat))))
+  | [k, "n", d] => d.toNat?.map (fun n => (k, JVal.num n))
+  | [k, "a", es] => some (k, JVal.arr (if es == "-" then [] else (es.splitOn ",").map parseElem))
+  | [k, "o", _] => some (k, JVal.other)
+  | _ => none
+
+def errClass : Err → String
+  | .duplicateBits => "duplicate-bits" | .duplicateValues => "duplicate-values"
+  | .bitsBeforeValues => "bits-before-values" | .missingBits => "missing-bits" | .missingValues => "missing-values"
+  | .notSynchronized => "not-synchronized" | _ => "invalid"
+
+/-- serde_json's compact rendering of the object `serJson` describes (names, `|`, spaces, hex digits and
+decimal numbers only: nothing to escape) -/
+def renderJson (fields : List (String × JVal)) : String :=
+  let val : JVal → String
+    | .str cs => "\"" ++ String.ofList cs ++ "\""
+    | .num n => toString n
+    | .arr xs => "[" ++ ",".intercalate (xs.map (fun | .num n => toString n | .other => "null")) ++ "]"
+    | .other => "null"
+  "{" ++ ",".intercalate (fields.map (fun (k, v) => "\"" ++ k ++ "\":" ++ val v)) ++ "}"
+
 def handle : List String → String
+  | "poljs" :: bits :: vals =>
+    match bits.toNat? with
+    | some b => renderJson (serJson ⟨b, vals.map (fun v => natOr v 0)⟩)
+    | none => "bad-op"
+  | "polj" :: toks =>
+    match toks.mapM parseField with
+    | none => "bad-op"
+    | some fields =>
+      match deJson fields with
+      | .ok p => s!"ok {showTree (ser p)}"
+      | .error e => s!"err {errClass e}"
   | "pol" :: bits :: vals =>
     match bits.toNat? with
     | some b => showTree (ser ⟨b, vals.map (fun v => natOr v 0)⟩)
